@@ -373,6 +373,22 @@ def shard_edge_steps(seed, count):
                 'state': {'R.PC': pc, 'cpsr': gen.cpsr_value(m=0b10011, t=1 if thumb else 0, e=rng.getrandbits(1)), 'sctlr': rng.choice((0, 1 << 22, 2)),
                           'R.R1usr': base, 'R.R2usr': rng.getrandbits(32), 'R.R3usr': rng.getrandbits(32), 'R.R0usr': rng.getrandbits(32)},
                 'poke': [[pc, code.hex()]], 'steps': 2}
+        if rng.random() < 0.3:
+            # the same instructions with the access completely inside the device, on the LPAE configuration (doubleword accesses are single 8-byte hub
+            # accesses there) and either data endianness: the bytes the hub returns / stores are compared with the reference machine
+            from vf import diff
+            case['cfg'] = gen.CONFIGS[rng.choice(('v7-lpae', 'v7', 'v6'))]
+            case['mems'][2] = [0x9000, 0x40]
+            case['state']['R.R1usr'] = 0x9000 + 8 * rng.randrange(1, 6)
+            case['state']['sctlr'] = 1 << 22
+            case['poke'].append([0x9000, bytes(rng.getrandbits(8) for _ in range(0x40)).hex()])
+            case['steps'] = 1
+            res = diff.run(case)
+            acc.case(True, ('edge-in', thumb, code, case['state']['cpsr'], case['state']['R.R1usr']), cls='edge-step-inside')
+            if res.diffs and res.status not in ('unpred', 'skip'):
+                from vf.props.e1prop import sig
+                acc.violation('C16:edge-step:value:' + sig(res.diffs), {'edge_case': case, 'differential': True}, {'diffs(expected,observed)': e1.fmt_diff(res.diffs)})
+            continue
         bad = edge_check(case)
         acc.case(True, ('edge', thumb, dev, data, off, base, code), cls='edge-step', sample={'thumb': thumb, 'code_device': dev, 'pc': '%#x' % pc,
                                                                                               'data_device': data, 'base': '%#x' % base, 'code': code.hex()})
@@ -407,6 +423,10 @@ def replay(case, bucket=None):
     if case.get('from_list'):
         msg = from_list_case(case['layout'], case['ops'])
         return [msg] if msg else []
+    if case.get('differential'):
+        from vf import diff
+        res = diff.run(case['edge_case'])
+        return ['value'] if (res.diffs and res.status not in ('unpred', 'skip')) else []
     if 'edge_case' in case:
         bad = edge_check(case['edge_case'])
         return [bad] if bad else []
